@@ -619,6 +619,10 @@ def c18_run(rng):
         elif waiter and n == nlines - 1 and not closed:
             text = "gather-and-close --return-exceptions"
             closed = True
+            if waiter in parked and rng.random() < 0.4:
+                # the serving task is cancelled while the waiter's command is still waiting and every client is still
+                # connected; this last line ends the wait: both it and the waiting command must still be answered
+                steps += [{"op": "idle"}, {"op": "stop"}, {"op": "idle"}]
         must_be_usage = False
         if rng.random() < 0.12 and not text.startswith("gather-and-close"):
             text = invalid_line(rng, cls, token)
